@@ -5,7 +5,7 @@ namespace ShootVerif.Drive
 open ShootVerif.Fs
 
 /-!
-`(case <id> fs17 (cmd new) (pkg "p/") (clean) (genfile "a.shootnew.go")
+`(case <id> fs17 (cmd new) (pkg "p/") (flags (types "*") (file "") sep) (aiofile "a.go") (genfile "a.shootnew.go")
     (outs (o "a.shootnew.go" "123") …)                       -- output base name, temp suffix
     (listing (f "a.shootnew.go" (line "// Code …")) …)   -- package dir as Clean sees it
     (init (e "p/a.go" 0) (e "p/a.shootnew.go" 1) (e "p/backup.txt" 1) …))             -- path ↦ inode before the run`
@@ -52,8 +52,15 @@ def fs17Case (id : String) (payload : List Sexp) : List String :=
     -- `tmpfail`: notedownSrc fails without any fault injection — the temp name exceeds NAME_MAX (os.CreateTemp fails) or the output
     -- name is taken by a directory (os.Rename fails, the temp file is removed): logx.Fatalf, exit 1, the directory is as before
     let tmpfail := p.hasFlag "tmpfail"
-    let c : Config := { cmd := cmd, pkgPrefix := fsStr p "pkg",
-                        outs := if tmpfail then [] else outs, cleanActive := p.hasFlag "clean", genfile := fsStr p "genfile", listing := listing }
+    -- the command line as the driver model reads it, and what the go:generate lookup finds: Clean is active iff `cleanActiveWith`
+    let fl : ShootVerif.Cli.Flags := match p.field? "flags" with
+      | some f => parseFlags f
+      | none => {}
+    let whole := match ShootVerif.Cli.mode fl with
+      | some (.star false) => true
+      | _ => false
+    let c : Config := { cmd := cmd, pkgPrefix := fsStr p "pkg", outs := if tmpfail then [] else outs,
+                        cleanActive := ShootVerif.Cli.cleanActiveWith fl (fsStr p "aiofile"), genfile := fsStr p "genfile", listing := listing }
     let txns := c.txns
     let rms := c.clean
     let ops := c.ops
@@ -93,11 +100,13 @@ def fs17Case (id : String) (payload : List Sexp) : List String :=
         ("exit", if tmpfail then "1" else "0"),
         ("confined", fsyn confined), ("cleanonly", fsyn cleanonly), ("atomic", fsyn atomic), ("frame", fsyn frame),
         ("hardlink", fsyn hardlink), ("notemp", fsyn notemp), ("reader", "yes"),
+        -- something is removed only by a run that regenerates the whole package (C17_clean_only_superseded)
+        ("superseded", fsyn (rms.isEmpty || whole)),
         -- I/O errors: a failed write or rename ends in remove(temp) (C17_no_temp_after_any_exit), a failed unlink stops Clean
         ("fault-atomic", "yes"), ("fault-notemp", fsyn faultNoTemp) ]
     let spec : List (String × String) :=
       [ ("confined", "yes"), ("cleanonly", "yes"), ("atomic", "yes"), ("frame", "yes"), ("hardlink", "yes"),
-        ("notemp", "yes"), ("reader", "yes"), ("fault-atomic", "yes"), ("fault-notemp", "yes") ]
+        ("notemp", "yes"), ("reader", "yes"), ("superseded", "yes"), ("fault-atomic", "yes"), ("fault-notemp", "yes") ]
     both id model spec (region c).str
   | _, _, _, _ => err id "bad-fs17-case"
 
